@@ -122,7 +122,7 @@ def branch_contracts(ck, cs, system, orbit, label, fractions_step, disp, n_stm=2
 
 
 def main(tier=None, replay=None):
-    ck = Check("C12", "exploration", tier)
+    ck = Check("C12", "model_checking", tier)
     rnd = random.Random(ck.seed)
     from hiten import System
     if replay:
